@@ -20,6 +20,7 @@ type c18Case struct {
 	Mode  string      `json:"mode"`
 	Batch int         `json:"batch"`
 	Query string      `json:"query"`
+	Past  int         `json:"past,omitempty"` // polls issued after the end of the rows
 }
 
 func init() { registerReplay("c18", func(c *c18Case) string { m, _, _ := checkC18(c); return m }) }
@@ -249,7 +250,7 @@ func checkC18(c *c18Case) (msg string, nontrivial bool, labels []string) {
 		return "", false, []string{"no-pinning-conjunct"}
 	}
 	in := lib.NewInstr(lib.NewStore(c.Pairs))
-	cfg := lib.Cfg{Mode: c.Mode, Batch: c.Batch, Cache: true}
+	cfg := lib.Cfg{Mode: c.Mode, Batch: c.Batch, Cache: true, Past: c.Past}
 	res := lib.Run(q, in, len(c.Pairs), cfg)
 	if res.BuildErr != nil {
 		return "", false, []string{"rejected-by-engine"}
@@ -406,7 +407,12 @@ func TestC18Shapes(t *testing.T) {
 		for _, cf := range c18Cfgs {
 			idx++
 			if lib.Mine(idx) {
-				c18Run(t, &c18Case{Conj: conj, AndOp: op, Pairs: u, Mode: cf.mode, Batch: cf.batch}, true)
+				// (round 11: one case in three polls on past the end of the rows)
+				past := 0
+				if idx%3 == 0 {
+					past = 1 + idx%2
+				}
+				c18Run(t, &c18Case{Conj: conj, AndOp: op, Pairs: u, Mode: cf.mode, Batch: cf.batch, Past: past}, true)
 			}
 		}
 	}
@@ -469,7 +475,7 @@ func TestC18Random(t *testing.T) {
 		if cf.mode == "batch" {
 			bs = lib.GenBatchSize(rt)
 		}
-		c := &c18Case{Conj: conj, AndOp: rapid.SampledFrom([]string{"&", "and"}).Draw(rt, "andop"), Pairs: pairs, Mode: cf.mode, Batch: bs}
+		c := &c18Case{Conj: conj, AndOp: rapid.SampledFrom([]string{"&", "and"}).Draw(rt, "andop"), Pairs: pairs, Mode: cf.mode, Batch: bs, Past: rapid.SampledFrom([]int{0, 0, 1, 2}).Draw(rt, "pollsPastTheEnd")}
 		c18Run(rt, c, false)
 	})
 }
